@@ -248,6 +248,19 @@ Definition catalog_rows (ny nx : nat) (own : inputs) (detcat : option inputs) (l
   let det := match detcat with None => own | Some d => d end in
   map (mkrow ny nx own det) labels.
 
+(* SegmentationImage.labels (np.unique of the non-zero pixels): the distinct non-zero label
+   values in increasing order; a full catalog has one row per entry, in this order *)
+Fixpoint insert_u (x : Z) (l : list Z) : list Z :=
+  match l with
+  | [] => [x]
+  | y :: r => if (x <? y)%Z then x :: l else if (x =? y)%Z then l else y :: insert_u x r
+  end.
+Definition seg_labels (ny nx : nat) (seg : fimg Z) : list Z :=
+  fold_right insert_u []
+    (filter (fun v => negb (v =? 0)%Z) (map (fun p => seg (fst p) (snd p)) (coords_box 0 ny 0 nx))).
+Definition full_catalog_rows (ny nx : nat) (own : inputs) (detcat : option inputs) : list row :=
+  catalog_rows ny nx own detcat (seg_labels ny nx (i_seg own)).
+
 (* ---------------- correspondence ---------------- *)
 Definition get2 {A} (d : A) (img : list (list A)) : fimg A := fun y x => nth x (nth y img []) d.
 
@@ -282,8 +295,9 @@ Definition mk_inputs (seg : list (list Z)) (a : carrays) : inputs :=
      i_conv := option_map (get2 None) conv; i_err := option_map (get2 None) err;
      i_bkg := option_map (get2 None) bkg; i_mask := option_map (get2 true) mask |}.
 
-(* scale = the power of two S every value was multiplied by *)
-Definition case := (Z * Z * Z * list (list Z) * carrays * option carrays * list Z * list crow)%type.
+(* scale = the power of two S every value was multiplied by; full = the rows are those of the
+   complete catalog (then the label list must be [seg_labels]) *)
+Definition case := (Z * Z * Z * list (list Z) * carrays * option carrays * bool * list Z * list crow)%type.
 
 Local Open Scope Z_scope.
 Definition pow2 (e : Z) : Z := if e <? 0 then 1 else 2 ^ e.
@@ -358,11 +372,12 @@ Fixpoint check_rows (scale ny nx : Z) (rs : list row) (cs : list crow) : bool :=
   end.
 
 Definition case_rows (c : case) : list row :=
-  let '(scale, ny, nx, seg, own, det, labels, _) := c in
+  let '(scale, ny, nx, seg, own, det, _, labels, _) := c in
   catalog_rows (Z.to_nat ny) (Z.to_nat nx) (mk_inputs seg own) (option_map (mk_inputs seg) det) labels.
 
 Definition check_case (c : case) : bool :=
-  let '(scale, ny, nx, _, _, _, _, impl) := c in
-  check_rows scale ny nx (case_rows c) impl.
+  let '(scale, ny, nx, seg, _, _, full, labels, impl) := c in
+  (if full then zlist_eqb labels (seg_labels (Z.to_nat ny) (Z.to_nat nx) (get2 0%Z seg)) else true)
+  && check_rows scale ny nx (case_rows c) impl.
 
 Definition model_out (c : case) := case_rows c.
